@@ -17,8 +17,11 @@ UNITS = [
     flow.Unit('heat-rod', groups=['heat'], props=['props/C08_heat.v'], custom_corr=HC.unit_corr,
               oracle=lambda rng, tier, reasons: UO.oracle(rng, tier, reasons, only=('Rod1D-BC1', 'Rod1D-BC3', 'Rod1D-BC4', 'PlanarSandwich', 'PlanarSandwichHot', 'PlanarSandwichHalf'))),
     flow.Unit('all-solvers-units', groups=[], props=[], oracle=UO.oracle, always_oracle=True,
+              findings=[dict(id='geneos-absolute-tolerances', refuted=None, pending=None, replay=UO.replay_geneos,
+                             what='GenEOS_Solver is not invariant under a change to units in which densities are ~1e-11: absolute ODE / bisect tolerances (Sod problem, mass x395, '
+                                  'length x24300, time x94900: fields off by 55-100 %)')],
               note='change of units on the real code for Sedov, EHEP, Mader, Kenamond 1-3, DSD cylindrical expansion, Blake, EP piston (3 models), heat rod '
-                   'family, Hutchens 1 and the general-EOS Riemann driver; dimension tables in tools/units_oracle.py (Guderley and the Coggeshall family: C10 / C01)'),
+                   'family, Hutchens 1 and the general-EOS Riemann driver; 40 % of the unit changes use factors 1e-5..1e5 per dimension (hidden dimensional constants); dimension tables in tools/units_oracle.py (Guderley and the Coggeshall family: C10 / C01)'),
 ]
 
 
